@@ -208,6 +208,13 @@ var c08TwoSrcs = []struct{ name, src string }{
 	{"doc-before-pkg", "// Package a does things.\npackage a\n\n// g doc\nfunc g() {\n\tif cond { // open\n\t\tfoo()\n\t\t// close\n\t}\n\tsetup()\n\ttrace(/* in */ 1)\n\trun()\n\toldName()\n\tos.Exit(1)\n}\n\n/* helper */\nfunc helper() {\n}\n"},
 }
 
+func init() {
+	// a long licence header in front of a parenthesised import group: positions in
+	// the target lie far beyond anything in the patch
+	c08TwoSrcs = append(c08TwoSrcs, struct{ name, src string }{"long-header-import-group",
+		longLicence + "package a\n\nimport (\n\t\"fmt\"\n\t\"os\"\n\t\"strings\"\n)\n\nfunc g() {\n\tfmt.Println(strings.ToUpper(\"x\"))\n\tsetup()\n\ttrace(1)\n\trun()\n\tif cond {\n\t\t// c\n\t\tfoo()\n\t}\n\toldName()\n\tos.Exit(1)\n}\n\nfunc helper() {}\n"})
+}
+
 func c08TwoChangeN() int { return len(c08First) * len(c08Second) * len(c08TwoSrcs) * 2 }
 
 func c08TwoChange(j int) (name string, patches [][]byte, src []byte) {
